@@ -94,12 +94,15 @@ def shape_obligations(hint_src, conf_src='BeartypeConf()', want=('C01', 'C02', '
         is_random = bool(conf.is_random)
         seqs = list(sp.root_sequences(hint, x))
         axioms = uni.axioms()
+        from .discharge import Prover
+        prover = Prover(axioms)
         def add(name, kind, hyps, goal, prop, where='', extra=None):
-            res = prove(axioms, hyps, goal)
+            res = prover.prove(hyps, goal)
             o = dict(name=name, kind=kind, prop=prop, status=res.status, time=round(res.time, 4), backend=res.backend, where=where)
             if res.status == 'refuted':
                 if res.model is not None: o['model'] = summarize_model(res.model, uni, x, r)
-                o['replay'] = try_replay(name, res, uni, x, r, hint_src, conf_src, extra)
+                if sum(1 for q in rec['obligations'] if (q.get('replay') or {}).get('tried')) < 6 or not any((q.get('replay') or {}).get('reproduced') for q in rec['obligations']):
+                    o['replay'] = try_replay(name, res, uni, x, r, hint_src, conf_src, extra)
                 o['solver_output'] = f'{res.backend}: sat' + (f' model digest {o.get("model")}' if 'model' in o else '')
             if res.status == 'undecided': o['reason'] = res.reason
             rec['obligations'].append(o)
